@@ -312,11 +312,15 @@ def oracle(ctx, interp, Ad, A, theta, norm, spl, sym, rowsum0, base):
     from pyamg.strength import classical_strength_of_connection
     Kb = np.array([[2.0, 0.5], [0.3, 1.5]])
     Abd = np.kron(Ad, Kb) + np.diag(0.25 * (np.arange(2 * n) % 3))
-    for fmt_, Amat, Afull, bs_ in (('csr', A, Ad, 1), ('bsr', sp.bsr_array(Abd, blocksize=(2, 2)), Abd, 2)):
+    # (also CSC / COO storage of the same matrix: the routine converts, it must not work on the transpose)
+    for fmt_, Amat, Afull, bs_ in (('csr', A, Ad, 1), ('bsr', sp.bsr_array(Abd, blocksize=(2, 2)), Abd, 2),
+                                   ('csc', sp.csc_array(Ad), Ad, 1), ('coo', sp.coo_array(Ad), Ad, 1)):
         for degree in (1, 2):
             for solver_, kw_ in (('qr', {}), ('gmres', dict(use_gmres=True, maxiter=0, precondition=True)),
                                  ('gmres-noprec', dict(use_gmres=True, maxiter=0, precondition=False))):
                 if fmt_ == 'bsr' and degree == 2 and solver_ == 'gmres-noprec':
+                    continue
+                if fmt_ in ('csc', 'coo') and solver_ != 'qr':
                     continue
                 case = dict(base, routine='local_air', degree=degree, format=fmt_, local_solver=solver_)
                 try:
@@ -328,7 +332,7 @@ def oracle(ctx, interp, Ad, A, theta, norm, spl, sym, rowsum0, base):
                     continue
                 ctx.count('oracle:air/%s/%s' % (fmt_, solver_))
                 Cp = np.where(spl == 1)[0]
-                Cs = sp.csr_array(classical_strength_of_connection(Amat, theta=0.1, norm='abs'))
+                Cs = sp.csr_array(classical_strength_of_connection(Amat if fmt_ in ('csr', 'bsr') else sp.csr_array(Ad), theta=0.1, norm='abs'))
                 Rd = R.toarray()
                 RA = Rd @ Afull
                 scale = max(1.0, np.abs(Rd).max() * np.abs(Afull).max())
